@@ -1,4 +1,8 @@
-use crate::{emplacer::Emplacer, error::Error, utils::mem::check_align_and_min_size};
+use crate::{
+    emplacer::Emplacer,
+    error::Error,
+    utils::{floor_mul, mem::check_align_and_min_size},
+};
 use core::{
     mem::{align_of, size_of},
     ptr,
@@ -65,6 +69,9 @@ pub unsafe trait FlatValidate: FlatUnsized {
 
     /// Check that memory contents of `this` is valid for `Self`.
     fn validate(bytes: &[u8]) -> Result<(), Error> {
+        // A mapped value only ever covers whole alignment units of `bytes`,
+        // so a trailing partial unit must not take part in validation either.
+        let bytes = &bytes[..floor_mul(bytes.len(), Self::ALIGN)];
         check_align_and_min_size::<Self>(bytes)?;
         unsafe { Self::validate_unchecked(bytes) }
     }
